@@ -6,6 +6,7 @@ AllClasses == {"TensorMesh#1", "TensorMesh#2", "Model#1", "Model#2", "Model#3",
                "TxElectricDipole#3", "TxMagneticDipole#1", "TxMagneticDipole#2",
                "TxElectricWire#1", "RxElectricPoint#1", "RxElectricPoint#2",
                "RxMagneticPoint#1", "RxMagneticPoint#2", "Survey#1", "Survey#2",
-               "Survey#3", "Simulation#1", "Simulation#2", "Simulation#3"}
+               "Survey#3", "Simulation#1", "Simulation#2", "Simulation#3",
+               "Simulation#4", "Simulation#5", "Simulation#6"}
 FewClasses == {"Model#1", "Survey#1"}
 =============================================================================
